@@ -18,7 +18,7 @@ func init() {
 			"The cache's iterators over the table yield only alive entries that are unexpired at a clock sample taken inside the iteration (C03.filter: nothing that expired before the iteration began). "+
 			"NOT decided: linearizability and weak consistency of iteration over all schedules; hash-collision behaviour.",
 		[]string{"sync.Mutex / sync/atomic semantics", "node Key() is immutable (C02.immut)"},
-		ruleC15Once, ruleC15RMW, ruleC15Recheck, ruleC15LockPair, ruleC15Publish, ruleC15Current, ruleC15KeyCheck, ruleC15Atomic, ruleC15MetaOrder, ruleC15Size, ruleC15Range, ruleC15CopyAll, ruleC15CopyLock, ruleC03Filter, ruleC15Scan, ruleIterContinue, ruleC15Swar, ruleC15HashIdx, ruleC18Hash, ruleC15SizeCopy, ruleC15SrcReadOnly)
+		ruleC15Once, ruleC15RMW, ruleC15Recheck, ruleC15LockPair, ruleC15Publish, ruleC15Current, ruleC15KeyCheck, ruleC15Atomic, ruleC15MetaOrder, ruleC15Size, ruleC15Range, ruleC15CopyAll, ruleC15CopyLock, ruleC03Filter, ruleC15Scan, ruleIterContinue, ruleC15Swar, ruleC15HashIdx, ruleC18Hash, ruleC15SizeCopy, ruleC15SrcReadOnly, ruleXMath)
 }
 
 const hmPkg = "internal/hashmap"
@@ -369,6 +369,29 @@ func ruleC15Recheck(cx *Ctx) {
 		}
 	}
 	cx.R.Check(argOK, rule, name, "same table", cx.P.where(nteCall), "the identity test is about the very table whose root bucket was locked")
+	// the test itself: "the table I indexed is no longer the current one"
+	{
+		okT, nr := false, 0
+		allInstrs(nte, func(in ssa.Instruction) {
+			r, ok := in.(*ssa.Return)
+			if !ok || len(r.Results) != 1 {
+				return
+			}
+			nr++
+			b, isB := r.Results[0].(*ssa.BinOp)
+			if !isB || b.Op != token.NEQ {
+				return
+			}
+			for _, pr := range [][2]ssa.Value{{b.X, b.Y}, {b.Y, b.X}} {
+				if paramIndexOf(pr[0]) == 1 {
+					if c, isC := pr[1].(*ssa.Call); isC && isStdMethod(c, "sync/atomic", "Pointer", "Load") && sameField(recvField(c), table) {
+						okT = true
+					}
+				}
+			}
+		})
+		cx.R.Check(okT && nr == 1, rule, funcName(nte), "compares with the current table", cx.P.Pos(nte.Pos()), "newerTableExists(t) is t != table.Load()")
+	}
 	// every slot/meta access and callback is guarded by both tests being false
 	guarded := func(in ssa.Instruction) bool {
 		g1, g2 := false, false
